@@ -460,7 +460,7 @@ Definition L_stmts (g : nat) : Prop :=
 Definition L_fb (g : nat) : Prop :=
   forall k body rk ctx c code c' sc l,
     lower_fbody (statement g) (expression g) body ctx c = Ok (code, c') ->
-    fbody_check (frag_stmts pv sv bound fl k sc) (fun fl1 sc1 x => frag_fexpr pv sv bound fl1 k sc1 x) k body rk = true ->
+    fbody_check (frag_stmts pv sv bound fl k sc) (fun fl1 sc1 x => frag_fexpr pv sv bound fl1 k sc1 x) (fun fl1 sc1 x => frag_expr pv sv bound fl1 k sc1 x) k body rk = true ->
     exists b l', cshape l code b l' c c'.
 
 Definition L_fexpr (g : nat) : Prop :=
@@ -504,7 +504,7 @@ Definition P_fb (n : nat) : Prop :=
   forall g k body rk ctx c code c' e st r st' sc l E stL F,
     SyltSem.block_value n e body st = (r, st') ->
     lower_fbody (statement g) (expression g) body ctx c = Ok (code, c') ->
-    fbody_check (frag_stmts pv sv bound fl k sc) (fun fl1 sc1 x => frag_fexpr pv sv bound fl1 k sc1 x) k body rk = true ->
+    fbody_check (frag_stmts pv sv bound fl k sc) (fun fl1 sc1 x => frag_fexpr pv sv bound fl1 k sc1 x) (fun fl1 sc1 x => frag_expr pv sv bound fl1 k sc1 x) k body rk = true ->
     ucovers u code -> ctx_ok l F E c c' ->
     rel pv sv bound u fl W sc e st E stL -> interesting r ->
     exists b l', cshape l code b l' c c' /\ fb_post rk sc e E stL b r st'.
